@@ -336,6 +336,35 @@ def corruptions(ev):
     return out
 
 
+# ----------------------------------------------------------------- replay ----
+def replay(ctx, rep):
+    """./check C11 --replay <file written by a VIOLATION>: the one lens and analysis again."""
+    r = rep["repro"]
+    task = dict(r["task"])
+    if "job" in r:                       # an analysis that raised
+        what, N, Gs, wl = r["job"]
+        task["jobs"] = [dict(what=what, N=N, G=Gs, wl=wl, field=(0.0, 0.0), full=False, npix=0)]
+    else:
+        task["jobs"] = [dict(what=r["what"], N=r["N"], G=r["G"], wl=r["wl"], field=tuple(r["field"]),
+                             full=r["G"] <= 64, npix=2, pupil=r["N"] <= 32)]
+    names = clause_names()
+    events = []
+    for ev, meta in run_task(task):
+        if ev is None:
+            if "raises" in meta:
+                ctx.report("raises", rep["class"], meta["raises"], r)
+            continue
+        ev["id"] = len(events)
+        events.append(ev)
+    if events:
+        vd = ctx.validate("Trace_Diffraction", events, shards=2)
+        for ev in events:
+            for clause in decode(names, ev["kind"], vd[ev["id"]]):
+                if not clause.startswith("~"):
+                    ctx.report(clause, rep["class"] if clause == rep["clause"] else {"analysis": ev["kind"], "replay": True},
+                               "replay: clause %s fails" % clause, r)
+
+
 # ------------------------------------------------------------------- main ----
 def main(ctx):
     quick = ctx.tier == "quick"
